@@ -204,7 +204,7 @@ class Cursor:
             if r < 0.7:
                 self.size += 1
                 return ("add",) + self.val()
-            return rng.choice(QUERIES + BUILTINS)
+            return rng.choice(QUERIES + BUILTINS + self.mem())
         if k == "ARRAY":
             i = rng.randint(lo - 1, hi + 1)
         else:
@@ -215,7 +215,14 @@ class Cursor:
             return ("set", i) + self.val()
         if r < 0.8:
             return ("get", i)
-        return rng.choice(QUERIES + BUILTINS + [("biv", "SIZEOF", 0, 1)])
+        return rng.choice(QUERIES + BUILTINS + [("biv", "SIZEOF", 0, 1)] + self.mem())
+
+    def mem(self):
+        """`value in container`, only when the containers define the membership test (else the probe reports the class)"""
+        return [("mem",) + self.val(), ("mem",) + self.val()] if MEMBERSHIP["defined"] else []
+
+
+MEMBERSHIP = {"defined": False}
 
 
 def random_history(rng, length):
@@ -668,6 +675,51 @@ def probe_specialization(ctx, sides):
     ctx.cov["correspondence"]["simple-specialization-probe"] = {"pairs": len(lines) - 1, "specializations_refused": n}
 
 
+def probe_membership(ctx, sides):
+    """`value IN aggregate` (python `value in container`): for every kind, a table of contents and offered values (present,
+    absent, python-equal value of another type, a value of a foreign type, unset ARRAY slots, empty containers), the
+    runtime's answer against EXPRESS 12.2.3 and — when the containers define `__contains__` in the modelled form
+    (regenerated `membershipDefined`; the model answers `unmodelled` otherwise) — against the Lean model.  Where the
+    runtime has no `__contains__` every difference is the class `membership-in-operator` (one finding)."""
+    decls = [("ARRAY", 1, 3, 0, 0, 1, 0), ("ARRAY", 0, 2, 0, 0, 1, 0), ("ARRAY", -1, 1, 2, 1, 1, 0), ("LIST", 0, None, 0, 0, 0, 0), ("LIST", 0, 3, 2, 1, 0, 0),
+             ("BAG", 0, None, 0, 0, 0, 0), ("BAG", 0, 3, 5, 0, 0, 0), ("SET", 0, None, 0, 0, 0, 0), ("SET", 0, 3, 5, 0, 0, 0), ("SET", 0, None, 1, 0, 0, 0)]
+    probes = [(0, 0), (0, 1), (0, 2), (0, 3), (2, 1), (2, 2), (1, 1), (3, 1)]
+    lines, slots = [], []
+    for d in decls:
+        base = d[3]
+        own = base if base in (0, 1, 2) else 0
+        fills = [[], [(own, 1)], [(own, 1), (own, 2)], [(own, 2), (own, 1), (own, 2)]]
+        if base == 5:
+            fills.append([(0, 1), (2, 2)])
+        for fill in fills:
+            lines.append("reset"); lines.append(decl_line(d))
+            for i, (t, v) in enumerate(fill):
+                lo = d[1]
+                lines.append(f"set {lo + i if d[0] == 'ARRAY' else i + 1} {t} {v}" if d[0] in ("ARRAY", "LIST") else f"add {t} {v}")
+            for (t, v) in probes:
+                slots.append(len(lines)); lines.append(f"mem {t} {v}")
+    text = "\n".join(lines) + "\n"
+    out = {side: run_side(getattr(sides, side), text, sides.env if side == "impl" else None)[1] for side in ("impl", "model", "spec")}
+    if not all(len(out[k]) == len(lines) for k in out):
+        ctx.broken.append(("membership probe", f"reply counts {[len(out[k]) for k in out]} for {len(lines)} lines")); return
+    bad = 0
+    for i in slots:
+        a, m, sp = canon(out["impl"][i]), out["model"][i], out["spec"][i]
+        ctx.count(1, key=f"mem:{i}"); ctx.hist("membership", f"{a}/{sp}")
+        if m != "unmodelled" and a != m:
+            ctx.broken.append(("correspondence PyAgg model vs the containers' __contains__", f"line {i} `{lines[i]}`: runtime `{a}`, model `{m}`"))
+            return
+        if a != sp:
+            bad += 1
+            if bad == 1:
+                j = max(k for k in range(i) if lines[k] == "reset")
+                hist = lines[j:i + 1]
+                key = "membership-in-operator" if m == "unmodelled" else "membership:" + ";".join(hist[1:]).replace(" ", ",")
+                ctx.violation(key, f"`{lines[i]}` after `{'; '.join(hist[1:-1])}`: the runtime answered `{out['impl'][i]}`, EXPRESS (12.2.3) requires `{sp}`",
+                              {"lines": hist, "how": "feed to harness/h_pyagg.py and to `m_c19 spec`"})
+    ctx.cov["correspondence"]["membership-probe"] = {"probes": len(slots), "disagreements": bad, "modelled": out["model"][slots[0]] != "unmodelled"}
+
+
 def fallback_generated():
     """When the extractor no longer matches the tree under test (a broken tie, reported by ctx.lean) the private Lean copy
     would keep whatever Generated file it had and the drivers might not build: give it the committed one (valid for /repo) so
@@ -693,8 +745,8 @@ def run(ctx):
         "harness/h_pyagg.py and the history generators in checks/c19.py (what they do not generate is not compared)",
     ]
     ctx.assumptions += [
-        "base types are simple types whose values compare equal only within one type (INTEGER, STRING, REAL here); "
-        "ENUMERATION/SELECT/aggregate base types go through other branches of check_type and are not modelled",
+        "values: INTEGER, STRING, REAL (whole numbers), BOOLEAN, LOGICAL, two ENUMERATIONs, element aggregates; base types additionally NUMBER and "
+        "SELECTs of simple types; aggregates over SELECT objects built directly, STRING / BINARY widths are not modelled",
         "indices and bounds are Python ints (a non-int index/bound is outside the model)",
         "the lower bound of LIST/BAG/SET constrains the finished value, not the operations that build it",
     ]
@@ -703,6 +755,7 @@ def run(ctx):
     if not os.path.exists(ctx.model_exe("m_c19")):
         return
     sides = Sides(ctx)
+    MEMBERSHIP["defined"] = "def __contains__" in open(os.path.join(B.REPO, "src", "exp2python", "python", "stepcode", "AggregationDataTypes.py")).read()
     ctx.distinct = Distinct()
     total = []
     for label, hs in batches(ctx):
@@ -714,6 +767,7 @@ def run(ctx):
         report(ctx, sides, total)
     probe_element_bounds(ctx, sides)
     probe_specialization(ctx, sides)
+    probe_membership(ctx, sides)
     rnd = random_history(ctx.rng, 12)
     ctx.sample({"lines": hist_lines(rnd)})
     ctx.sample({"lines": hist_lines(exhaustive(("LIST", 1, 2, 0, 1, 0, 0), 2)[37])})
